@@ -136,7 +136,34 @@ fn check_suffixes(x: &[u8], sfx: &[Vec<u8>], rep: &mut Report) -> u64 {
     for d in 0..DECODERS.len() {
         let base = match guarded(|| dec(d, x)) {
             Ok(Some((used, val))) if used == x.len() => val,
-            Ok(_) => continue,
+            Ok(Some(_)) => continue,
+            Ok(None) => {
+                // x is a complete TLV that this decoder refuses: what follows it must not make it acceptable
+                // (only judged for the decoder whose tag matches, and for SnmpValue)
+                if d != 0 && DECODERS[d].1 != x[0] {
+                    continue;
+                }
+                // BerHeader has no tag of its own; SnmpOption refuses inputs shorter than 3 octets outright
+                // (a size guard, not a reading of what follows), so an empty option is not judged here
+                if d == 7 || (d == 6 && x.len() < 3) {
+                    continue;
+                }
+                let mut buf = x.to_vec();
+                for s in sfx.iter() {
+                    buf.truncate(x.len());
+                    buf.extend_from_slice(s);
+                    n += 1;
+                    if let Ok(Some((used, val))) = guarded(|| dec(d, &buf)) {
+                        rep.violation(
+                            &format!("suffix-completes-invalid-element/{}/tag-{:02x}/len-{}", DECODERS[d].0, x[0], x.len() - 2),
+                            format!("{}: element {} is refused alone but accepted (consumed {}, value {}) when followed by {}", DECODERS[d].0, hex(&x[..x.len().min(24)]), used, val, hex(s)),
+                            format!("{{\"kind\": \"suffix\", \"decoder\": {}, \"x\": {}, \"s\": {}}}", d, jstr(&hex(x)), jstr(&hex(s))),
+                        );
+                        break;
+                    }
+                }
+                continue;
+            }
             Err(p) => {
                 rep.violation(&format!("panic/{}", DECODERS[d].0), format!("{}({}) panicked: {}", DECODERS[d].0, hex(x), p), format!("{{\"kind\": \"suffix\", \"decoder\": {}, \"x\": {}, \"s\": \"\"}}", d, jstr(&hex(x))));
                 continue;
@@ -270,6 +297,32 @@ fn check_overlong(thorough: bool, rep: &mut Report) -> u64 {
             variants.push(vec![0x85, 1, 0, 0, (l >> 8) as u8, l as u8]);
             variants.push(vec![0x88, 1, 0, 0, 0, 0, 0, (l >> 8) as u8, l as u8]);
             variants.push(vec![0x84, 0xff, 0xff, 0xff, 0xff]);
+            // a constructed element declared shorter than its children: the last child then runs past it
+            let mut shortened: Vec<Vec<u8>> = Vec::new();
+            let kids: Vec<&rb::Node> = nodes[i + 1..].iter().take_while(|k| k.depth > node.depth).filter(|k| k.depth == node.depth + 1).collect();
+            let is_opaque = opaque.map(|o| i == o).unwrap_or(false);
+            if let (Some(last), false) = (kids.last(), is_opaque) {
+                for cut in [1usize, 2, last.hlen + last.len, last.len.max(1)] {
+                    if cut <= node.len && cut > 0 && node.len - cut < 0x80 && node.hlen == 2 {
+                        shortened.push(vec![(node.len - cut) as u8]);
+                    }
+                }
+            }
+            for le in shortened.iter() {
+                let mut w = d[..node.start + 1].to_vec();
+                w.extend_from_slice(le);
+                w.extend_from_slice(&d[node.cstart()..]);
+                n += 1;
+                match guarded(|| msg_ok(sk.entry, &w)) {
+                    Ok(false) => {}
+                    Ok(true) => rep.violation(
+                        &format!("child-runs-past-shortened-parent-accepted/depth-{}/tag-{:02x}", node.depth, node.tag),
+                        format!("{}: element at offset {} (tag {:02x}, {} octets) re-declared as {} octets so that its last child runs past it, but the message was accepted", sk.name, node.start, node.tag, node.len, le[0]),
+                        format!("{{\"kind\": \"msg\", \"entry\": {}, \"hex\": {}}}", sk.entry, jstr(&hex(&w))),
+                    ),
+                    Err(p) => rep.violation(&format!("overlong/panic/{}", crate::panic_class(&p)), format!("panic: {}", p), format!("{{\"kind\": \"msg\", \"entry\": {}, \"hex\": {}}}", sk.entry, jstr(&hex(&w)))),
+                }
+            }
             for le in variants.iter() {
                 let mut w = d[..node.start + 1].to_vec();
                 w.extend_from_slice(le);
